@@ -162,6 +162,11 @@ def check(h, reason):
         elif c is not None and c.get("exc") != CANCEL_NAME[fl]:
             v.append({"key": "C02/wrong-cancel-type/%s/%s" % (fl, trig), "msg": "%s payload %s saw %s" % (fl, pid, c.get("exc"))})
     for e in ev:
+        if e["kind"] == "destroyed" and e.get("pid") in specs and specs[e["pid"]]["flavour"] != "threading":
+            fl = specs[e["pid"]]["flavour"]
+            v.append({"key": "C02/destroyed-not-cancelled/%s" % fl, "msg": "%s payload %s (steps %r) was dropped and finalised by the garbage collector at t=%.4f while it was still running: it was never cancelled through %s" % (fl, e["pid"], specs[e["pid"]]["steps"], e["t"], CANCEL_NAME[fl])})
+            break
+    for e in ev:
         if e["seq"] > end_seq and e.get("pid") in specs and specs[e["pid"]]["flavour"] != "threading" and e["kind"] in ("step", "hb", "cleanup-step", "finished", "cancelled", "cleanup-async-done", "spinning", "blocking"):
             fl = specs[e["pid"]]["flavour"]
             v.append({"key": "C02/step-after-end/%s/%s" % (fl, trig), "msg": "%s payload %s executed '%s' (seq %d, t=%.4f) after the run call ended (seq %d, t=%.4f)" % (fl, e["pid"], e["kind"], e["seq"], e["t"], end_seq, ended["t"])})
